@@ -24,11 +24,8 @@ try:
         subprocess.run(['git', '-C', wt, 'apply', '-R'], input=d, check=True)
     else:
         subprocess.check_call(['git', '-C', wt, 'apply', patch])
-    env = dict(os.environ, VERIF_REPO=wt)
+    env = dict(os.environ, VERIF_REPO=wt, VERIF_REPLAYS=os.path.join(evbak, 'replays'), VERIF_EVIDENCE=os.path.join(evbak, 'evidence'))
     for p in props:
-        ev = os.path.join(VERIF, 'evidence', p + '.json')
-        if os.path.exists(ev): shutil.copy(ev, os.path.join(evbak, p + '.json'))
-        before = set(os.listdir(os.path.join(VERIF, 'replays'))) if os.path.isdir(os.path.join(VERIF, 'replays')) else set()
         t0 = time.time()
         r = subprocess.run([os.path.join(VERIF, 'check'), p, '--tier', tier], env=env, cwd=VERIF, stdout=subprocess.PIPE, stderr=subprocess.STDOUT, text=True)
         dt = time.time() - t0
@@ -42,9 +39,6 @@ try:
                 if k + 1 < len(lines): print('   ' + lines[k + 1][:300])
                 break
         if verdict == 'BUILD-FAILED': print(r.stdout[-1500:])
-        if os.path.exists(os.path.join(evbak, p + '.json')): shutil.copy(os.path.join(evbak, p + '.json'), ev)
-        for f in set(os.listdir(os.path.join(VERIF, 'replays'))) - before:
-            os.remove(os.path.join(VERIF, 'replays', f))
 finally:
     subprocess.call(['git', '-C', '/repo', 'worktree', 'remove', '--force', wt], stdout=subprocess.DEVNULL, stderr=subprocess.DEVNULL)
     shutil.rmtree(wt, ignore_errors=True); shutil.rmtree(bdir, ignore_errors=True); shutil.rmtree(evbak, ignore_errors=True)
